@@ -244,10 +244,25 @@ Definition EXPECTED_CONFIG_CHANNEL : list str :=
 Lemma config_channel_shape_current : lstr_eqb gen.T01.CONFIG_CHANNEL EXPECTED_CONFIG_CHANNEL = true.
 Proof. vm_compute. reflexivity. Qed.
 
+(* ---- a command replayed by the scheduler is dropped when its user is ignored at fire time (plugins/Scheduler) ---- *)
+(* ircutils.isUserHostmask(msg.prefix) and ircdb.checkIgnored(msg.prefix, msg.channel) *)
+Definition EXPECTED_SCHED_IGNORE_TEST : str :=
+  [105;114;99;117;116;105;108;115;46;105;115;85;115;101;114;72;111;115;116;109;97;115;107;40;109;115;103;46;112;114;101;102;105;120;41;32;97;110;100;32;105;114;99;100;98;46;99;104;101;99;107;73;103;110;111;114;101;100;40;109;115;103;46;112;114;101;102;105;120;44;32;109;115;103;46;99;104;97;110;110;101;108;41].
+Lemma sched_ignore_current : seq_eqb gen.T01.SCHED_IGNORE_TEST EXPECTED_SCHED_IGNORE_TEST = true.
+Proof. vm_compute. reflexivity. Qed.
+
+(* ---- no gating converter of any plugin takes a computed (non-literal) capability argument ---- *)
+Definition literal_args_ok (ws : list (str * str * str * list (str * list str * str))) : bool :=
+  forallb (fun w => match w with (_, _, _, occs) =>
+     forallb (fun o => negb (is_gating (fst (fst o))) || negb (hd_is 63 (snd o))) occs end) ws.
+Lemma literal_args_current : literal_args_ok gen.T01.WRAPS = true.
+Proof. vm_compute. reflexivity. Qed.
+
 Definition inventory_ok : bool :=
   wraps_ok gen.T01.WRAPS && catches_eqb gen.T01.CATCHES EXPECTED_CATCHES
   && pairs_eqb (callcmd_uses gen.T01.CALLSITES) EXPECTED_CALLCOMMAND_USES && defaults_ok gen.T01.DEFAULT_CAPS
   && denial_shape_ok && nocap_sites_ok gen.T01.NOCAP_SITES && argdep_ok
-  && lstr_eqb gen.T01.CONFIG_CHANNEL EXPECTED_CONFIG_CHANNEL.
+  && lstr_eqb gen.T01.CONFIG_CHANNEL EXPECTED_CONFIG_CHANNEL
+  && seq_eqb gen.T01.SCHED_IGNORE_TEST EXPECTED_SCHED_IGNORE_TEST && literal_args_ok gen.T01.WRAPS.
 Lemma inventory_current : inventory_ok = true.
 Proof. vm_compute. reflexivity. Qed.
